@@ -20,6 +20,7 @@ KNOWN_FILE = os.path.join(VERIF, "known_findings.json")
 # developer-only (tools/run_mutants.py): write replays and evidence of a run on a scratch copy elsewhere, so
 # that a demonstration on mutated code never overwrites the evidence of the tree under test
 OUT = os.environ.get("VERIF_OUT_DIR") or VERIF
+THOROUGH_DEFAULT_BUDGET = 600     # seconds per harness, for checks that state none
 
 
 def sig_hash(sig):
@@ -61,6 +62,8 @@ class Ctx:
 
     # -- BFS
     def explore(self, spec_key, max_states=None, time_budget=None):
+        if time_budget is None and self.tier == "thorough":
+            time_budget = THOROUGH_DEFAULT_BUDGET     # every thorough exploration terminates in bounded time
         r = explorer.explore(spec_key, self.module.__name__, "make_spec",
                              max_states=max_states, time_budget=time_budget,
                              progress=self.progress)
